@@ -159,6 +159,7 @@ StructClauses(f, c, scriptsConfigured, evs) ==
          \cup (IF Len(oe) >= 1 /\ oe[1].text # "2.0\n" THEN {"C04.debian_binary"} ELSE {})
          \cup (IF Len(on) >= 3 /\ on[3] # DebDataName(c.deb.compression) THEN {"C04.deb_data_member_name"} ELSE {})
          \cup (IF Len(oe) >= 3 /\ oe[3].comp # DebComp(c.deb.compression) THEN {"C04.deb_data_compression"} ELSE {})
+         \cup (IF Len(oe) >= 2 /\ oe[2].comp # "gzip" THEN {"C04.deb_control_is_gzip"} ELSE {})     \* whatever the data member's compression
          \cup (IF HasStruct(evs, "dpkg_deb_accepts") /\ StructVal(evs, "dpkg_deb_accepts") # "true" THEN {"C04.dpkg_deb_accepts"} ELSE {})
          \cup TarNameClauses(f, TarSeq(evs, "data"), TRUE, {})
          \cup TarNameClauses(f, TarSeq(evs, "control"), TRUE, {})
